@@ -472,6 +472,8 @@ class Run:
             self.lib_axioms_extra = (list(SUM_AXIOMS[:1]) if C.sum_axioms == "ext" else list(SUM_AXIOMS)) + [SUM_EXT]
         else:
             self.lib_axioms_extra = []
+        if getattr(C, "axioms", None) is not None and not shape_mode:
+            self.lib_axioms_extra = list(self.lib_axioms_extra) + list(C.axioms())
         from .sym import comm_axioms
         self.lib_axioms = list(FLOAT_AXIOMS) + (div_axioms() + mul_axioms() + comm_axioms(ABSTRACT_REAL[0]) if ABSTRACT_NL[0] else [])
 
@@ -519,6 +521,19 @@ class Run:
                 s2.add(p)
             s2.add(z3.Not(t))
             return s2, s2.check()
+        if getattr(self.C, "axioms", None) is not None:
+            # equational theories (ring axioms): E-matching can diverge on a false goal and the in-process solver then ignores
+            # its limits; such queries go to solver processes with a hard time limit only
+            r3 = _cvc5_check(ctx.pc, t, CVC5_MS)
+            self.solver_s += time.time() - t0
+            if r3 == "unsat":
+                return "proved", "cvc5", None
+            t1 = time.time()
+            r4 = _z3_binary_check(ctx.pc, t, 30)
+            self.solver_s += time.time() - t1
+            if r4 == "unsat":
+                return "proved", "z3", None
+            return "unknown", "z3+cvc5", {"z3": r4, "cvc5": r3}
         # 1. z3, small deterministic budget (most obligations end here in milliseconds)
         s2, r2 = z3_fresh(Z3_OBL_RL // 8)
         self.solver_s += time.time() - t0
@@ -545,6 +560,33 @@ class Run:
 
     def class_attr(self, interp, ctx, cls, attr, node):
         return self.C.class_attr(interp, ctx, cls, attr, node)
+
+
+def _z3_binary_check(pc, goal, seconds):
+    """the same query through the z3 command-line binary (own process, hard time limit)"""
+    import subprocess
+    import tempfile
+    try:
+        s = z3.Solver()
+        for p in pc:
+            s.add(p)
+        s.add(z3.Not(goal))
+        text = s.to_smt2()
+        with tempfile.NamedTemporaryFile("w", suffix=".smt2", delete=False) as fh:
+            fh.write(text)
+            path = fh.name
+        try:
+            exe = "z3-new" if any(os.access(os.path.join(d, "z3-new"), os.X_OK) for d in os.environ.get("PATH", "").split(os.pathsep)) else "/usr/bin/z3"
+            r = subprocess.run([exe, "-T:%d" % seconds, path], capture_output=True, text=True, timeout=seconds + 10)
+            out = r.stdout.strip().splitlines()
+            res = out[0].strip() if out else "error"
+            return res if res in ("unsat", "sat", "unknown") else "unknown"
+        except subprocess.TimeoutExpired:
+            return "unknown"
+        finally:
+            os.unlink(path)
+    except Exception:
+        return "error"
 
 
 def _cvc5_check(pc, goal, ms):
@@ -669,3 +711,4 @@ from . import lib_calc as _lib_calc    # jacobian / quad / fsolve models
 from . import interp as _interp_mod
 _lib_calc.install(_interp_mod)
 from . import lib_filter as _lib_filter   # exact summaries of filter loops / filtered comprehensions
+from . import lib_amat as _lib_amat     # abstract matrix algebra (uninterpreted ring of float matrices)
